@@ -141,6 +141,35 @@ func runC12(r *rt.Runner) {
 		})
 	}
 
+	// multi-call clause, failing programs: every split position
+	for _, parts := range c12FailingPrograms {
+		parts := parts
+		r.Case("multi-call-failing", func(c *rt.C) {
+			whole := strings.Join(parts, " ")
+			c.SetDetail(func() string { return "program: " + whole })
+			one := postscript.NewInterpreter()
+			one.MaxOps = 10000
+			err1 := one.ExecuteString(whole)
+			if err1 == nil {
+				c.Violation("multi-call-failing|accepted:"+whole, fmt.Sprintf("the program %q is expected to fail in one call, it returned nil", whole), "")
+				return
+			}
+			for cut := 1; cut < len(parts); cut++ {
+				multi := postscript.NewInterpreter()
+				multi.MaxOps = 10000
+				err2 := multi.ExecuteString(strings.Join(parts[:cut], " "))
+				if err2 == nil {
+					err2 = multi.ExecuteString(" " + strings.Join(parts[cut:], " "))
+				}
+				c.Eval()
+				c.Count("failing programs fed in two calls")
+				if err2 == nil || errName(err2) != errName(err1) {
+					c.Violation("multi-call-failing|"+whole, fmt.Sprintf("in one call %q fails with %v; fed as %q and %q the outcome is %v", whole, err1, strings.Join(parts[:cut], " "), strings.Join(parts[cut:], " "), err2), "")
+				}
+			}
+			c.Nontrivial([]byte("failing|"+whole), func() string { return whole + " -> " + err1.Error() })
+		})
+	}
 	// multi-call clause
 	nMC := r.N(20000, 200000)
 	for k := 0; k < nMC; k++ {
@@ -234,6 +263,13 @@ func runC12(r *rt.Runner) {
 			c.Nontrivial([]byte(fmt.Sprintf("%v|%s", cuts, whole)), func() string { return fmt.Sprintf("cuts %v in: %s", cuts, head([]byte(whole), 300)) })
 		})
 	}
+}
+
+// c12FailingSplits: programs that fail in one call must fail in the same way
+// when they are fed in several calls split at token boundaries.
+var c12FailingPrograms = [][]string{
+	{"1", ">", "2"}, {"1", "2", ">", "3", "4"}, {"[", "1", ">", "]", "2"}, {"1", ")", "2"}, {"1", "}", "2"},
+	{"1", "(a)", "add", "2"}, {"1", "nosuchname", "2"}, {"{", "1", ">", "}", "exec"},
 }
 
 // flatten renders tokens one per slice element; procedure braces are tokens.
